@@ -3,6 +3,7 @@ package sb
 import (
 	"encoding/hex"
 	"encoding/json"
+	"math"
 
 	"github.com/php-any/origami/data"
 )
@@ -17,6 +18,36 @@ type ValDesc struct {
 	B     bool      `json:"b,omitempty"`
 	Keys  []string  `json:"keys,omitempty"` // hex-encoded keys for map
 	Items []ValDesc `json:"items,omitempty"`
+}
+
+// JSON has no spelling for the infinities: a float description carries them in H.
+type valDescJSON ValDesc
+
+func (d ValDesc) MarshalJSON() ([]byte, error) {
+	a := valDescJSON(d)
+	if d.T == "float" && math.IsInf(d.F, 0) {
+		a.H, a.F = "+inf", 0
+		if d.F < 0 {
+			a.H = "-inf"
+		}
+	}
+	return json.Marshal(a)
+}
+
+func (d *ValDesc) UnmarshalJSON(b []byte) error {
+	var a valDescJSON
+	if err := json.Unmarshal(b, &a); err != nil {
+		return err
+	}
+	*d = ValDesc(a)
+	if d.T == "float" && (d.H == "+inf" || d.H == "-inf") {
+		d.F = math.Inf(1)
+		if d.H == "-inf" {
+			d.F = math.Inf(-1)
+		}
+		d.H = ""
+	}
+	return nil
 }
 
 // Str builds a string description from raw bytes.
